@@ -18,7 +18,7 @@ let labels_of_raw (raw : n list) : n list list =
       let (lab, rest) = take k tl [] in go rest (lab :: acc) in
   go raw []
 
-type scfg = { s_ecs : bool; s_sets : entry list list; s_rules : rule list; s_maxc : int }
+type scfg = { s_ecs : bool; s_sets : dset_entry list list; s_rules : rule list; s_maxc : int }
 
 let parse_scfg (spec : string) : scfg =
   let parts = List.filter_map (fun p -> match String.index_opt p '=' with
@@ -30,7 +30,7 @@ let parse_scfg (spec : string) : scfg =
         let kind = String.sub e 0 1 in
         let raw = bytes_of_hex (String.sub e 2 (String.length e - 2)) in
         let ls = labels_of_raw raw in
-        if kind = "f" then EFull ls else EDomain ls) (String.split_on_char '+' s)) (split ',' (get "S")) in
+        if kind = "f" then DsFull ls else DsDomain ls) (String.split_on_char '+' s)) (split ',' (get "S")) in
   let rules = List.map (fun r ->
       match String.split_on_char ':' r with
       | [s; rev; rej; fwd] ->
